@@ -214,6 +214,11 @@ class World:
         self._in_watch = False
         self.finished = False
         self.payload_of: dict = {}
+        self.histwatch = bool(sc.get('histwatch'))
+        self.hist_viol: list = []
+        self._hist_prev: dict = {}
+        self.hist_evictions = 0
+        self.hist_evicted_inflight = 0
         self.replica_of: dict = {}  # tag of a replica object -> tag of the event it was rebuilt from (same event_id)
         self.hre_parent: dict = {}  # root tag -> tag of the event whose handler re-dispatched it first (it becomes its parent)
         self.accepted: set = set()
@@ -231,6 +236,8 @@ class World:
                 self._watch_completion(r)
             finally:
                 self._in_watch = False
+        if self.histwatch:
+            self._watch_history(r)
         for h in self.hooks:
             h(r)
         return r
@@ -337,6 +344,33 @@ class World:
             'depth': e.depth,
             'results': self.result_rows(e),
         }
+
+    # -- C13 online history watch (bounded histories on any number of buses; same conservative rules as bvt.histworld.observe)
+    _PRI = {'completed': 0, 'started': 1, 'pending': 2}
+
+    def _watch_history(self, r):
+        for bus in self.buses:
+            N = bus.max_history_size
+            if N is None:
+                continue
+            hist = dict(bus.event_history)
+            if len(hist) > N and r['k'] in ('enq-ok', 'exit', 'quiet'):
+                self.hist_viol.append(('C13.a', f'{bus.name}: history holds {len(hist)} events > max_history_size {N} at idx {r["i"]} ({r["k"]})'))
+            snap = {eid: (e, e.event_status) for eid, e in hist.items()}
+            prev = self._hist_prev.get(bus.name)
+            if prev is not None:
+                for eid, (e, _s_prev) in prev.items():
+                    if eid in snap:
+                        continue
+                    self.hist_evictions += 1
+                    now_s = e.event_status
+                    if now_s != 'completed':
+                        self.hist_evicted_inflight += 1
+                    for rid, (re_, rs_prev) in prev.items():
+                        if rid in snap and self._PRI[rs_prev] < self._PRI[now_s]:
+                            self.hist_viol.append(('C13.b', f'{bus.name} at idx {r["i"]}: event {getattr(e, "tag", "?")} (status {now_s}) was evicted while event {getattr(re_, "tag", "?")} (already {rs_prev} at the previous observation) remains in the history'))
+                            break
+            self._hist_prev[bus.name] = snap
 
     # -- C08 online stability watch
     def _fingerprint(self, e):
@@ -1183,6 +1217,7 @@ def run_scenario(sc: dict, *, keep_world: bool = False, spin_budget: int = 60_00
     out['ndisp'] = w.ndisp
     out['payload_of'] = dict(w.payload_of)
     out['replica_of'] = dict(w.replica_of)
+    out['hist'] = {'viol': list(w.hist_viol), 'evictions': w.hist_evictions, 'evicted_inflight': w.hist_evicted_inflight}
     out['observed_complete'] = {t: {'at': v['at'], 'how': v['how']} for t, v in w.observed_complete.items()}
     if wal_ctx is not None:
         out['wal'] = wal_ctx.result
